@@ -59,6 +59,18 @@ CHECKS = {
    text="Partial: a sufficient condition, not schedules. Each entry point of UDPSession/Listener (and the library's own update / postProcess iteration / packetInput bodies, TimedSched.Put) is executed symbolically from an established session with symbolic arguments while a monitor checks every load and store on every feasible path against the discipline the anchors name: protocol core, receive buffer, FEC decoder and flags only under s.mu; the session table only under sessionLock (R/W); cipher scratch under encMu/decMu; deadlines, counters, callbacks only through atomics; construction-time constants never written. By the lock-set argument a clean run implies race freedom for the covered locations under every interleaving. Bounded symbolic model checking of the discipline.",
    note="Trusted: the guard table (hand-written from the anchors), gse's lock model. Interleavings are not enumerated; findings are confirmed by concrete re-execution in gse, not by go test -race.",
    design="§4 C14"),
+ "C01": dict(
+   text="Content lemmas on the real core from arbitrary valid states with symbolic payload bytes: Send appends exactly the written bytes (segment sizes, fragment numbering, stream-mode fill, 255-fragment limit); flush moves a prefix into flight in order and every PUSH it emits, decoded by the independent decoder, carries exactly the bytes and fragment number of the segment it names; Recv returns exactly the first complete message in order or an error without effect. Together with the C04/C05 Input steps (dedup, window, consecutive delivery, nothing stuck) these compose — by the written argument in DESIGN.md — into 'the reader sees a prefix'. Bounded symbolic model checking of the lemmas; the composition is not machine-checked.",
+   note="Trusted: gse, solvers, INV_KCP, the written composition. Payloads <= 7 bytes, MSS 1..3 for the fragmenting cases.",
+   design="§4 C01"),
+ "C02": dict(
+   text="'Nothing can get stuck' as one-step lemmas from arbitrary valid states and clocks: after a full flush every unacknowledged segment has been sent and has a timer strictly ahead and within its rto, an expired timer always retransmits (whatever fastack/dead-link), the returned interval never oversleeps a timer; every PUSH below the window edge — new, duplicate or already delivered — is acknowledged, and a flush sends every owed ack or a covering una; Check never names a time past a timer or tick, Update flushes when due and re-arms within one interval. Bounded symbolic model checking; eventual delivery beyond the scenario bounds is the written composition.",
+   note="Trusted: gse, solvers, INV_KCP plus the clock/timestamp relation stated in the evidence.",
+   design="§4 C02"),
+ "C03": dict(
+   text="Zero-window lemmas from arbitrary valid states: with rmt_wnd=0 a flush admits and drops nothing, arms the probe timer in [500 ms,120 s], sends WASK whenever it expired and backs off monotonically; a WASK (or a reader freeing a full queue) yields a WINS with the true free space; any regular segment with wnd>0 reopens the sender and queued data is admitted. Bounded symbolic model checking.",
+   note="Trusted: gse, solvers, INV_KCP.",
+   design="§4 C03"),
 }
 
 NOT_APPLICABLE = {}
